@@ -108,6 +108,29 @@ def dags(n, max_edges=None, max_deg=3, canonical=False):
     return _graphs[key]
 
 
+def fingerprint(n, edges, back, perm):
+    """identifies one (flowsheet, back edges, order of the unit list) case"""
+    import hashlib
+    import json
+    key = json.dumps([n, sorted(map(list, edges)), sorted(map(list, back)), list(perm)])
+    return hashlib.sha1(key.encode()).hexdigest()[:12]
+
+
+_known_cases = {}
+
+
+def known_cases():
+    """fingerprints of the cases listed in findings/C19-known-cases.json (the open findings of C19)"""
+    if not _known_cases:
+        import json
+        import os
+        p = os.path.join(os.path.dirname(os.path.dirname(os.path.abspath(__file__))), 'findings', 'C19-known-cases.json')
+        d = json.load(open(p)) if os.path.exists(p) else {}
+        _known_cases['duplicate'] = set(d.get('duplicate', []))
+        _known_cases['ValueError'] = set(d.get('ValueError', []))
+    return _known_cases
+
+
 def reach(n, edges):
     R = {i: {i} for i in range(n)}
     changed = True
@@ -224,12 +247,24 @@ def g_cyclic(ns, n_back_choices, all_perms=True, max_edges=None):
             us[a].outs.append(s)
             us[b].ins.append(s)
             streams[(a, b)] = s
-        net = Network.from_units([us[i] for i in perm])
-        path = flat(net)
         sig = f'n={n}/back={nb}'
         info = dict(edges=edges, back=back, order=list(perm))
+        fp = fingerprint(n, edges, back, perm)
+        try:
+            net = Network.from_units([us[i] for i in perm])
+        except ValueError as e:
+            if 'networks must have units in common to join' not in str(e):
+                raise
+            # an open finding lists the exact cases in which this happens on the unchanged tree; any other case is new
+            E.prove('network-is-built', False, sig='ValueError/listed-case' if fp in known_cases()['ValueError'] else f'ValueError/new-case/{fp}',
+                    info=dict(info, exc=str(e)))
+            return
+        path = flat(net)
         E.prove('path-contains-exactly-the-given-units', set(path) == set(us), sig=sig, info=info)
-        E.prove('no-unit-listed-twice-in-the-path', len(path) == len(set(path)), sig=sig, info=dict(info, path=[us.index(u) for u in path if u in us]))
+        dup = len(path) != len(set(path))
+        E.prove('no-unit-listed-twice-in-the-path', not dup,
+                sig=('listed-case' if fp in known_cases()['duplicate'] else f'new-case/{fp}') if dup else sig,
+                info=dict(info, path=[us.index(u) for u in path if u in us]))
         rec = net.get_all_recycles()
         E.prove('at-least-one-recycle-reported-for-cyclic-flowsheet', len(rec) >= 1, sig=sig, info=info)
         if len(path) == n and set(path) == set(us):
